@@ -361,6 +361,31 @@ class Interp:
             pass
         return out
 
+    def _reduce_order(self, i, p, pick_first_if):
+        axes = tuple(p["axes"])
+        a = i[0]
+        if not axes:
+            return a
+        def red(vals):
+            best = vals[0]
+            for v in vals[1:]:
+                sg = self.sign_of(v - best)
+                if sg is None:
+                    raise Unsupported("reduce_max/min of symbolic values with undecided order")
+                if pick_first_if(sg):
+                    best = v
+            return best
+        moved = np.moveaxis(a, axes, tuple(range(-len(axes), 0)))
+        lead = moved.shape[:a.ndim - len(axes)]
+        flat = moved.reshape(lead + (-1,))
+        out = np.empty(lead, dtype=object)
+        for idx in np.ndindex(*lead):
+            out[idx] = red(list(flat[idx]))
+        return out
+
+    def p_reduce_max(self, i, p, e): return self._reduce_order(i, p, lambda sg: sg > 0)
+    def p_reduce_min(self, i, p, e): return self._reduce_order(i, p, lambda sg: sg < 0)
+
     def p_reduce_prod(self, i, p, e):
         axes = tuple(p["axes"])
         out = np.prod(i[0], axis=axes)
@@ -478,9 +503,25 @@ class Interp:
             c = self.eval_jaxpr(cj.jaxpr, cj.consts, *cconsts, *state)[0]
             if is_sym(c):
                 raise Unsupported("while with symbolic predicate")
-            if not bool(np.asarray(c)):
+            c = np.asarray(c)
+            if not c.any():
                 return state
-            state = self.eval_jaxpr(bj.jaxpr, bj.consts, *bconsts, *state)
+            new = self.eval_jaxpr(bj.jaxpr, bj.consts, *bconsts, *state)
+            if c.ndim == 0 or c.all():
+                state = list(new)
+            else:
+                # batched predicate (while under vmap): the carry advances only where the predicate holds; the
+                # predicate's shape is a prefix of every carried value's shape (jax's own lowering rule)
+                merged = []
+                for old, nw in zip(state, new):
+                    old_a, nw_a = np.asarray(old, dtype=object) if is_sym(old) or is_sym(nw) else np.asarray(old), np.asarray(nw, dtype=object) if is_sym(old) or is_sym(nw) else np.asarray(nw)
+                    assert old_a.shape[:c.ndim] == c.shape, (old_a.shape, c.shape)
+                    out = old_a.copy()
+                    for idx in np.ndindex(*c.shape):
+                        if c[idx]:
+                            out[idx] = nw_a[idx]
+                    merged.append(out)
+                state = merged
         raise Unsupported("while did not terminate in 10000 iterations")
 
     def p_cond(self, i, p, e):
